@@ -1,6 +1,7 @@
 import Peppi.Lemmas.GenFile
 import Peppi.Lemmas.Unified2
 import Peppi.Lemmas.Longer
+import Peppi.Lemmas.GeckoU
 /-! Instances of the general file-level theorem (`readP_gen`) for **every** framing regime at once: the canonical frame events
     of a well-formed replay with declared unknown events spliced in anywhere after the Gecko block, and arbitrary extra bytes
     after Game End.  Consequences: C08 (unknown events) and C17 (fixed point of read/write on tolerated irregularities) for every
@@ -118,6 +119,8 @@ theorem canonEventsAny_run {T : TextOracle} {r : Replay} {s : Start} {gk : Optio
     and Game End (`mixed`), bytes after Game End up to the declared raw length (`junk`) -/
 structure Irr where
   table : List (Nat × Nat)
+  /-- unknown events in front of each message-splitter event of the Gecko block, in order (missing entries = none) -/
+  pre : List (List (Nat × Bytes)) := []
   mixed : List (Nat × Bytes)
   junk : Bytes
 
@@ -125,7 +128,7 @@ structure Irr where
 def Replay.fileIrr (r : Replay) (s : Start) (gk : Option GeckoBlocks) (i : Irr) : GFile :=
   { table := i.table
     startBlock := r.startBlock
-    mid := (match gk with | some g => g.enc | none => []) ++ encEvents i.mixed
+    mid := (match gk with | some g => g.encU i.pre | none => []) ++ encEvents i.mixed
     fend := r.fend
     extra := if r.doubled then (match r.fend with | some e => encEvent (EV_GAME_END, e) | none => []) else i.junk
     metadata := r.metadata }
@@ -144,6 +147,7 @@ structure Irr.OK (T : TextOracle) (r : Replay) (s : Start) (gk : Option GeckoBlo
   declSplit : ∀ g, gk = some g → (EV_SPLITTER, 516) ∈ i.table
   erase : Longer (i.mixed.filter (fun e => isKnown e.1)) (canonEventsAny s.version (portOccupancy s) r.frames)
   declared : ∀ e ∈ i.mixed, e.1 < 256 ∧ (e.1, e.2.length) ∈ i.table
+  preOK : ∀ u ∈ i.pre, ∀ e ∈ u, isKnown e.1 = false ∧ e.1 < 256 ∧ (e.1, e.2.length) ∈ i.table
   junkOK : i.junk ≠ [] → (∃ e, r.fend = some e) ∧ r.doubled = false ∧ ¬ looksLikeEnd s.version i.junk
   rawLen : (r.fileIrr s gk i).raw.length < 256 ^ 4
 
@@ -158,31 +162,10 @@ def Irr.ofUnknown (v : Ver) (sl el : Nat) (gk : Option GeckoBlocks) (extra : Lis
   { table := canonTableAny v sl el gk ++ extra, mixed := mixed, junk := junk }
 
 /-- the state after the Gecko block (or after `parse_start` when there is none) -/
-def psAfterGecko (t : List (Nat × Nat)) (sl : Nat) (s : Start) : Option GeckoBlocks → ParseState
+def psAfterGecko (t : List (Nat × Nat)) (sl : Nat) (s : Start) (pre : List (List (Nat × Bytes))) : Option GeckoBlocks → ParseState
   | none => ps0T t sl s
   | some g => { st := { (ps0T t sl s).st with splitRaw := [], splitActual := g.total, gecko := some (Gecko.mk (catData g.all) g.total) },
-                bytesRead := (ps0T t sl s).bytesRead + 517 * (g.init.length + 1) }
-
-theorem midRun_gecko (t : List (Nat × Nat)) (sl : Nat) (s : Start) (g : GeckoBlocks)
-    (hfull : ∀ b ∈ g.init, FullBlock b) (hlast : LastBlock g.last) (htot : g.total < 2 ^ 32)
-    (hsz : sizeOfEv t.reverse EV_SPLITTER = some 516) :
-    MidRun (ps0T t sl s) g.enc (psAfterGecko t sl s (some g)) := by
-  intro rawLen rest hraw
-  have hgl := g.enc_length hfull hlast
-  have hblocks : ∀ b ∈ g.init ++ [g.last], BlockOK b := by
-    intro b hb
-    simp only [List.mem_append, List.mem_singleton] at hb
-    rcases hb with hb | rfl
-    · exact ⟨(hfull b hb).1, by rw [(hfull b hb).2]; omega⟩
-    · exact ⟨hlast.1, hlast.2.2⟩
-  rw [eventLoop_fuel _ ((g.enc ++ rest).length + 1 + g.init.length + 1) _ _ _ (by omega) (by omega)]
-  have hg := gecko_run rawLen (g.enc ++ rest).length (ps0T t sl s) g.init g.last rest hblocks
-    (by simp only [ps0T, Nat.zero_add]; exact htot) hsz (by rcases hraw with h | h; exact Or.inl h; right; rw [hgl] at h; exact h)
-  simp only [GeckoBlocks.enc, List.append_assoc] at hg ⊢
-  rw [hg]
-  rw [eventLoop_fuel _ (rest.length + 1) _ _ _ (by simp only [List.length_append]; omega) (by omega)]
-  congr 1
-  simp [psAfterGecko, ps0T, GeckoBlocks.total, GeckoBlocks.all]
+                bytesRead := (ps0T t sl s).bytesRead + (g.encU pre).length }
 
 /-- **General read theorem for well-formed replays with tolerated irregularities, every version.**  Whatever declared
     unknown events are spliced into the frame events and whatever bytes follow Game End, the reader returns exactly the game
@@ -195,7 +178,7 @@ theorem readP_irregular (T : TextOracle) (r : Replay) (s : Start) (gk : Option G
   have hnd : (t.map Prod.fst).Nodup := h.nodup
   have look : ∀ c sz, (c, sz) ∈ t → sizeOfEv t.reverse c = some sz := fun c sz hm => sizeOfEv_reverse t hnd c sz hm
   -- the state the middle starts from, after the Gecko block
-  let ps1 := psAfterGecko t r.startBlock.length s gk
+  let ps1 := psAfterGecko t r.startBlock.length s i.pre gk
   have hps1 : ps1.st.start = s ∧ ps1.st.frames = FCols.new s.version (portOccupancy s) ∧ ps1.st.portIdx = portIdxOf (portOccupancy s) ∧
       ps1.st.sizes = t.reverse ∧ ps1.st.fend = none ∧ ps1.st.metadata = none ∧ ps1.st.doubleGameEnd = none := by
     cases gk <;> exact ⟨rfl, rfl, rfl, rfl, rfl, rfl, rfl⟩
@@ -222,7 +205,7 @@ theorem readP_irregular (T : TextOracle) (r : Replay) (s : Start) (gk : Option G
   let psF : ParseState := { st := stF, bytesRead := ps1.bytesRead + (encEvents i.mixed).length }
   -- the whole middle
   have hmid : MidRun (ps0T t r.startBlock.length s) (r.fileIrr s gk i).mid psF ∧
-      ps1.bytesRead = (ps0T t r.startBlock.length s).bytesRead + (match gk with | some g => g.enc | none => ([] : Bytes)).length := by
+      ps1.bytesRead = (ps0T t r.startBlock.length s).bytesRead + (match gk with | some g => g.encU i.pre | none => ([] : Bytes)).length := by
     cases gk with
     | none =>
       have e1 : ps1 = ps0T t r.startBlock.length s := rfl
@@ -232,14 +215,14 @@ theorem readP_irregular (T : TextOracle) (r : Replay) (s : Start) (gk : Option G
     | some g =>
       obtain ⟨h33, hfull, hlast, hnz, hlt⟩ := hb.gecko g rfl
       have hszS : sizeOfEv t.reverse EV_SPLITTER = some 516 := look _ _ (h.declSplit g rfl)
-      have hg := midRun_gecko t r.startBlock.length s g hfull hlast hlt hszS
-      have e1 : ps1 = psAfterGecko t r.startBlock.length s (some g) := rfl
-      have hbr1 : ps1.bytesRead = (ps0T t r.startBlock.length s).bytesRead + g.enc.length := by
-        rw [e1, g.enc_length hfull hlast]; rfl
+      have hg := midRun_geckoU t r.startBlock.length s g i.pre hfull hlast hlt hszS
+        (fun u hu e he => by obtain ⟨a, b, c⟩ := h.preOK u hu e he; exact ⟨a, b, look _ _ c⟩)
+      have e1 : ps1 = psAfterGecko t r.startBlock.length s i.pre (some g) := rfl
+      have hbr1 : ps1.bytesRead = (ps0T t r.startBlock.length s).bytesRead + (g.encU i.pre).length := rfl
       refine ⟨?_, by simpa using hbr1⟩
-      have : (r.fileIrr s (some g) i).mid = g.enc ++ encEvents i.mixed := by simp [Replay.fileIrr]
+      have : (r.fileIrr s (some g) i).mid = g.encU i.pre ++ encEvents i.mixed := by simp [Replay.fileIrr]
       rw [this]
-      exact MidRun.trans hg (by rw [← e1]; exact hev) (by rw [← e1]; exact hbr1)
+      exact MidRun.trans hg (show MidRun ps1 _ _ from hev) (show ps1.bytesRead = _ from hbr1)
   obtain ⟨hmid, hbr1⟩ := hmid
   have hsizesF : stF.sizes = t.reverse := by have := congrArg (fun c => c.1) hctx; simp only [PState.ctx] at this; rw [this, p4]
   have hstartF : stF.start = s := by have := congrArg (fun c => c.2.2.2.1) hctx; simp only [PState.ctx] at this; rw [this, p1]
@@ -251,7 +234,7 @@ theorem readP_irregular (T : TextOracle) (r : Replay) (s : Start) (gk : Option G
       intro e he
       have : r.fend = some e := he
       simp [Replay.endLen, this]
-    · have hm : (r.fileIrr s gk i).mid.length = (match gk with | some g => g.enc | none => ([] : Bytes)).length + (encEvents i.mixed).length := by
+    · have hm : (r.fileIrr s gk i).mid.length = (match gk with | some g => g.encU i.pre | none => ([] : Bytes)).length + (encEvents i.mixed).length := by
         simp [Replay.fileIrr]
       show ps1.bytesRead + (encEvents i.mixed).length = (ps0T t r.startBlock.length s).bytesRead + (r.fileIrr s gk i).mid.length
       rw [hbr1, hm]; omega
